@@ -437,6 +437,13 @@ class Exec:
         op = self._opaque_projection(st, tree)
         if op is not None:
             return op
+        if tree[0] == 'index' and st.get('@arrays'):
+            try:
+                key0, ty0 = self.place_key(st, tree)
+                if isinstance(key0, tuple) and isinstance(key0[1], str) and key0[1] in st['@arrays']:
+                    return self.read_key(st, key0, ty0)
+            except Refuse:
+                pass
         if tree[0] == 'index':
             # element of an array value held directly (e.g. a by-value [u8; 3] argument or to_le_bytes() result)
             try:
